@@ -465,6 +465,15 @@ def admissible(sq, kind, i, path, x):
         return False   # int scalar slot + complex -> numpy complex scalar -> silently truncated on assignment
     if is_arr(x) and x.ndim >= 1 and not is_arr(tgt) and path:
         return False       # array into a scalar slot: ValueError or TypeError depending on dtype (not modelled)
+    if kind == 'AddSens' and not path and is_arr(x) and x.ndim >= 1 and is_arr(tgt) and tgt.ndim >= 1 \
+            and x.shape != tgt.shape and np.iscomplexobj(x) and not np.iscomplexobj(tgt):
+        # promoting addition on a root signal (F37) is evaluated OUT of place, where numpy broadcasts more shapes
+        # than in place, e.g. (2, 1) + (2,): general broadcasting is not modelled
+        try:
+            np.zeros(tgt.shape) + np.zeros(x.shape)
+            return False
+        except ValueError:
+            pass
     if is_arr(x) and x.ndim >= 1 and is_arr(tgt) and x.shape != tgt.shape:
         # general broadcasting (numpy accepts unequal shapes) is not modelled: try on dummies
         try:
@@ -744,7 +753,11 @@ def run(ctx):
                         '(index object, parent shape)), validated on independent data each run',
                         'general numpy broadcasting (unequal but broadcastable shapes) and silent complex->int truncation on '
                         'item assignment are outside the model and not generated (counted as skipped:outside-model)',
-                        'custom sensitivity objects with their own add_sensitivity method are not modelled']
+                        'custom sensitivity objects with their own add_sensitivity method are not modelled',
+                        'dtype universe of the model: int64 / complex128; Signal.add_sensitivity (after fix F37) accumulates a '
+                        'contribution the held array cannot take in place out of place (model: catch_type (iadd) (oadd)); '
+                        'int->float and float->complex promotions are covered by the implementation-side oracle; out-of-place '
+                        'promotion with general broadcasting (unequal shapes) is not generated']
     ctx.trusted += ['Print Assumptions: all C18 theorems are closed under the global context (Z / list developments)',
                     'modelled rather than verified: CPython attribute/property protocol (augmented assignment through a '
                     'property = get, __iadd__, set), copy.deepcopy of ndarrays, numpy in-place add / item assignment with '
@@ -1095,7 +1108,12 @@ class RootHistory:
             return copy.deepcopy(v)
         if is_arr(cur):
             new = cur.copy()
-            new += v
+            try:
+                new += v
+            except TypeError:
+                # the sum does not fit the dtype held so far (float onto int, complex onto real; repaired defect F37):
+                # the accumulated value is old + ds in the promoted dtype, in a private array of its own
+                new = new + v
             return new
         return cur + v
 
@@ -1256,9 +1274,10 @@ def _stress_oracle(ctx, pym):
     for k1, dt1, shp in firsts:
         for k2 in ('a0', 'py', 'np', 'arr'):
             for dt2 in 'ifc':
-                # a later contribution must fit the dtype of the (private copy of the) first one when that is an array
+                # every dtype order: a later contribution that does not fit the dtype held so far (int-then-float,
+                # real-then-complex, float-then-complex) is accumulated out of place in the promoted dtype (F37)
                 if k1 not in ('py', 'np') and DTRANK[dt2] > DTRANK[dt1]:
-                    continue
+                    ctx.count('stress:root-history:promoting')
                 for sc, scen in enumerate(ROOT_SCENARIOS):
                     ctx.search_evaluations += 1
                     ctx.count('stress:root-history')
@@ -1283,9 +1302,9 @@ def _stress_oracle(ctx, pym):
         for nm in 'defg':
             k = prng.choice(('a0', 'arr', 'np', 'py')) if shp == () else prng.choice(('arr', 'arr', 'a0', 'py', 'arrF'))
             k = 'a0' if (k in ('arr', 'arrF') and shp == ()) else k
-            pool[nm] = src.make(k, prng.choice('ifc'[:DTRANK[dt] + 1]), shp)
+            pool[nm] = src.make(k, prng.choice('ifc'), shp)          # any dtype order (promotion included)
         if shp != () and not is_arr(pool['d']) or (is_arr(pool['d']) and pool['d'].ndim == 0 and shp != ()):
-            pool['d'] = src.make('arr', dt, shp)      # first value of full shape and widest dtype: later ones broadcast into it
+            pool['d'] = src.make('arr', dt, shp)      # first value of full shape: later ones broadcast into it
         pool['d'] = pool['d'].astype(DT[dt]) if is_arr(pool['d']) else pool['d']
         h = RootHistory(pym, 3, pool)
         first_done = set()
@@ -1400,6 +1419,26 @@ def _stress_oracle(ctx, pym):
                     bad('after reset(False) the signal no longer writes into the released array',
                         'constructed-with-sensitivity', case, desc(x0), desc(x))
                     continue
+                if dt1 != 'c' and first_reset is not False:
+                    # a contribution the kept allocation cannot hold: the field is re-bound to old + ds (promoted);
+                    # the originally supplied array x keeps its contents and is no longer referenced
+                    x1 = copy.deepcopy(x)
+                    e = src.make(k1, 'c', shp)
+                    e0 = copy.deepcopy(e)
+                    log.append(f'k.add_sensitivity(e)   # e = {desc(e0)}')
+                    k.add_sensitivity(e)
+                    if not same_value(k.sensitivity, np.asarray(d0) * 2 + np.asarray(e0)) or not same_value(e, e0) \
+                            or not same_value(x, x1) or overlap(k.sensitivity, e) or overlap(k.sensitivity, x):
+                        bad('a contribution the held array cannot take in place is accumulated out of place (old + ds, '
+                            'promoted dtype) without aliasing or changing ds or the old array',
+                            'constructed-with-sensitivity', case, desc(np.asarray(d0) * 2 + np.asarray(e0)), desc(k.sensitivity))
+                        continue
+                    log.append('k.reset()')
+                    k.reset()
+                    if not same_value(k.sensitivity, (np.asarray(d0) * 2 + np.asarray(e0)) * 0) or not same_value(x, x1):
+                        bad('reset with kept allocation zeroes the (promoted) sensitivity in place',
+                            'constructed-with-sensitivity', case, None, desc(k.sensitivity))
+                        continue
                 log.append('k.reset(False)')
                 k.reset(False)
                 if k.sensitivity is not None:
